@@ -152,7 +152,7 @@ def combinators(ex, st, fr, name, args, dty):
                     term = inner.term if isinstance(inner, VSym) else inner.base.term
                     out.append((s2, VAgg(ty, nm, [VSym(('ref', ('field', term, 0, nm)))]), 'ok', ''))
         return out
-    if m not in ('map', 'map_err', 'and_then', 'ok', 'err', 'unwrap_or', 'is_some_and', 'or_else', 'unwrap_or_else'):
+    if m not in ('map', 'map_err', 'and_then', 'ok', 'err', 'unwrap_or', 'is_some_and', 'or_else', 'unwrap_or_else', 'unwrap_or_default'):
         return None
     out = []
     for s2, nm, get in enum_split(ex, st, v, ty, names):
@@ -187,6 +187,8 @@ def combinators(ex, st, fr, name, args, dty):
             out.append((s2, mk('Option', 'Some', get()) if nm == 'Err' else mk('Option', 'None'), 'ok', ''))
         elif m == 'unwrap_or':
             out.append((s2, get() if nm == good else args[1], 'ok', ''))
+        elif m == 'unwrap_or_default':
+            out.append((s2, get() if nm == good else VSym(('const', 'Default::default()'), dty), 'ok', ''))
         elif m == 'is_some_and':
             if nm == good:
                 for (s3, r, k, msg) in call_fn_value(ex, s2, fr, args[1], [get()]):
@@ -194,6 +196,31 @@ def combinators(ex, st, fr, name, args, dty):
             else:
                 out.append((s2, VBool(False), 'ok', ''))
     return out
+
+
+@model(r'(^|::)Option::transpose$')
+def option_transpose(ex, st, fr, name, args, dty):
+    out = []
+    for s2, nm, get in enum_split(ex, st, args[0], 'Option', ['None', 'Some']):
+        if nm == 'None':
+            out.append((s2, mk('Result', 'Ok', mk('Option', 'None')), 'ok', ''))
+        else:
+            for s3, nm2, get2 in enum_split(ex, s2, get(), 'Result', ['Ok', 'Err']):
+                if nm2 == 'Ok':
+                    out.append((s3, mk('Result', 'Ok', mk('Option', 'Some', get2())), 'ok', ''))
+                else:
+                    out.append((s3, mk('Result', 'Err', get2()), 'ok', ''))
+    return out
+
+
+@model(r'core::str::<impl str>::as_bytes$|^<str as (std::convert::)?AsRef<\[u8\]>>::as_ref$|^<\[u8\] as (std::convert::)?AsRef<\[u8\]>>::as_ref$|^<str as (std::convert::)?AsRef<str>>::as_ref$')
+def as_bytes_identity(ex, st, fr, name, args, dty):
+    return ok(st, args[0])
+
+
+@model(r'^<(std::vec::)?Vec<u8> as (std::convert::)?Into<(std::boxed::)?Box<\[u8\]>>>::into$|^<(std::boxed::)?Box<\[u8\]> as (std::convert::)?From<(std::vec::)?Vec<u8>>>::from$')
+def vec_into_box(ex, st, fr, name, args, dty):
+    return ok(st, args[0])
 
 
 @model(r'bool>::then_some$|core::bool::<impl bool>::then_some$')
